@@ -246,6 +246,8 @@ def run(ctx):
     part.merge(core.fan_out(ctx, _window_chunk, core.split(harvested_rows(), 8)))
     from .. import calcseq                 # pylint: disable=import-outside-toplevel
     part.merge(calcseq.explore(ctx, ['move_dist_lt']))
+    from .. import callforms              # pylint: disable=import-outside-toplevel
+    part.merge(callforms.explore("C01"))
     cnt = part.counters
     states = cnt.get("states", 0) + cnt.get("long_moves", 0)
     coverage = {
@@ -281,6 +283,9 @@ def run(ctx):
 
 
 def replay(case):
+    if case.get("kind") == "callform":
+        from .. import callforms          # pylint: disable=import-outside-toplevel
+        return callforms.replay(case)
     if str(case.get("kind")).startswith("calc_"):
         from .. import calcseq             # pylint: disable=import-outside-toplevel
         return calcseq.replay(case)
